@@ -158,3 +158,84 @@ Example c16_mem_nonvacuous :
 Proof.
   cbv zeta. repeat split; try (vm_compute; reflexivity); cbn; lia.
 Qed.
+
+(* ====================================================================================== *)
+(* round 2: the remaining functions (model/SliceMemModel2.v, proof/SliceMemProof2.v)        *)
+From Ekit Require Import SliceMemModel2 SliceMemProof2.
+
+(* deduplicateFunc and the four ...Func set functions (for EVERY function equal): fresh, non-nil,
+   arguments untouched, contents = SliceModel's *)
+Theorem deduplicate_func_pure : forall extra equal st data, wfs st data ->
+  pure_result st (deduplicate_func_m extra equal st data) (deduplicate_func equal (contents_s st data)).
+Proof. exact deduplicate_func_m_lemma. Qed.
+Print Assumptions deduplicate_func_pure.
+
+Theorem set_func_functions_pure : forall extra equal st src dst, wfs st src -> wfs st dst ->
+  pure_result st (union_set_func_m extra equal st src dst) (union_set_func equal (contents_s st src) (contents_s st dst)) /\
+  pure_result st (intersect_set_func_m extra equal st src dst) (intersect_set_func equal (contents_s st src) (contents_s st dst)) /\
+  pure_result st (diff_set_func_m extra equal st src dst) (diff_set_func equal (contents_s st src) (contents_s st dst)) /\
+  pure_result st (symdiff_set_func_m extra equal st src dst) (symdiff_set_func equal (contents_s st src) (contents_s st dst)).
+Proof.
+  exact (fun extra equal st src dst Hs Hd => conj (union_set_func_m_lemma extra equal st src dst Hs Hd)
+          (conj (intersect_set_func_m_lemma extra equal st src dst Hs Hd)
+          (conj (diff_set_func_m_lemma extra equal st src dst Hs Hd) (symdiff_set_func_m_lemma extra equal st src dst Hs Hd)))).
+Qed.
+Print Assumptions set_func_functions_pure.
+
+(* a result that is pure w.r.t. a later store is pure w.r.t. every earlier one *)
+Theorem pure_result_composes : forall st0 st1 o w, keeps st0 st1 -> pure_result st1 o w -> pure_result st0 o w.
+Proof. exact pure_result_trans. Qed.
+Print Assumptions pure_result_composes.
+
+(* the remaining readers: they only load (no store is returned) and compute SliceModel's value.
+   Max / Min panic exactly like ts[0] on an empty slice; mapx.ToMap's nil / length errors included *)
+Theorem readers_exact_2 : forall st s, wfs st s ->
+  (forall mt, find_m mt st s = Ok (find mt (contents_s st s))) /\
+  max_m st s = max_slice (contents_s st s) /\ min_m st s = min_slice (contents_s st s) /\
+  (forall fk fv, to_map_v_m fk fv st s = Ok (to_map_v fk fv (contents_s st s))) /\
+  (forall fk, to_map_kv_m fk st s = Ok (to_map fk (contents_s st s))).
+Proof.
+  exact (fun st s Hw => conj (fun mt => find_m_lemma mt st s Hw) (conj (max_m_lemma st s Hw) (conj (min_m_lemma st s Hw)
+          (conj (fun fk fv => to_map_v_m_lemma fk fv st s Hw) (fun fk => to_map_v_m_lemma fk (fun e => e) st s Hw))))).
+Qed.
+Print Assumptions readers_exact_2.
+
+Theorem binary_readers_exact : forall st src dst, wfs st src -> wfs st dst ->
+  contains_any_m st src dst = Ok (contains_any (contents_s st src) (contents_s st dst)) /\
+  contains_all_m st src dst = Ok (contains_all (contents_s st src) (contents_s st dst)) /\
+  (forall equal, contains_any_func_m equal st src dst = Ok (contains_any_func equal (contents_s st src) (contents_s st dst))) /\
+  (forall equal, contains_all_func_m equal st src dst = Ok (contains_all_func equal (contents_s st src) (contents_s st dst))) /\
+  mapx_to_map_m st src dst =
+    mapx_to_map (match src with Some _ => Some (contents_s st src) | None => None end)
+                (match dst with Some _ => Some (contents_s st dst) | None => None end).
+Proof.
+  exact (fun st src dst Hs Hd => conj (contains_any_m_lemma st src dst Hs Hd) (conj (contains_all_m_lemma st src dst Hs Hd)
+          (conj (fun equal => contains_any_func_m_lemma equal st src dst Hs Hd)
+          (conj (fun equal => contains_all_func_m_lemma equal st src dst Hs Hd) (mapx_to_map_m_lemma st src dst Hs Hd))))).
+Qed.
+Print Assumptions binary_readers_exact.
+
+Example c16_mem2_nonvacuous :
+  let extra := fun n : nat => n in
+  union_set_func_m extra Z.eqb [[1; 2]; [2; 3]] (Some (mkhdr 0 0 2 2)) (Some (mkhdr 1 0 2 2)) =
+    Ok ([[1; 2]; [2; 3]; [2; 3; 1; 2]; [3; 1; 2; 0]], Some (mkhdr 3 0 3 4)) /\
+  symdiff_set_func_m extra Z.eqb [] None None = Ok ([[]; []], Some (mkhdr 1 0 0 0)) /\
+  max_m [[]] (Some (mkhdr 0 0 0 0)) = Panic /\
+  mapx_to_map_m [[1; 1]; [5; 6]] (Some (mkhdr 0 0 2 2)) (Some (mkhdr 1 0 2 2)) = Ok [(1, 6)] /\
+  mapx_to_map_m [[1; 1]] (Some (mkhdr 0 0 2 2)) None = Err EOther.
+Proof. cbv zeta. repeat split; vm_compute; reflexivity. Qed.
+
+(* ====================================================================================== *)
+(* mapx.KeysValues (model/SliceMemModel3.v): two non-nil results in two DIFFERENT fresh arrays,
+   every pre-existing array untouched, contents = SliceModel.map_keys_values *)
+From Ekit Require Import SliceMemModel3 SliceMemProof3.
+Theorem keys_values_pure : forall extra st m,
+  exists st' ks vs, keys_values_m extra st m = (st', Some ks, Some vs) /\
+    fresh st st' ks (fst (map_keys_values m)) /\ fresh st st' vs (snd (map_keys_values m)) /\ h_arr ks <> h_arr vs.
+Proof. exact keys_values_m_lemma. Qed.
+Print Assumptions keys_values_pure.
+
+Example c16_mem3_nonvacuous :
+  keys_values_m (fun n => n) [[9]] [(1, 5); (2, 6)] =
+    ([[9]; [1; 2]; [5; 6]], Some (mkhdr 1 0 2 2), Some (mkhdr 2 0 2 2)).
+Proof. vm_compute. reflexivity. Qed.
